@@ -883,6 +883,7 @@ fn run_str(s: &W3Script, bump: &'static Bump, ck: &mut Ck, stats: &mut Stats) ->
 pub fn exec_w3(s: &W3Script) -> W3Report {
     simalloc::begin_run(s.placement);
     track::reset_ledger();
+    crate::w2_ops::set_spare(if s.elem == VT::Zt { 0 } else { s.spare });
     INNER_ON.with(|c| c.set(s.inner_alloc));
     INNER.with(|v| v.borrow_mut().clear());
     let name = crate::w2::op_name(&s.target);
